@@ -43,6 +43,12 @@ checks = {
  "C14": dict(cat="exploration", engine="seq", tech=SEQ, ref="DESIGN.md §5 C14, Appendix A.3",
    text="all strings over {a,1,.,@,/,-,space,e-acute} up to 7 symbols (quick) / 9 (thorough) plus planted-address menu at every position and adjacency; oracles: every byte of every core address inside a redacted span, only address-character spans containing '@' replaced, text without a supported address unchanged and uncounted",
    note="shapes outside the documented core (local part ending in . - _, empty labels) tolerated either way; see harness/seq_redact/README.md"),
+ "C10": dict(cat="exploration", engine="seq", tech=SEQ + " (decode with vmihailenco/msgpack, independent of fastmsgpack)", ref="DESIGN.md §5 C10",
+   text="real Fluentd event serializer; full product of schemas (3 and 16 fields: fixmap vs map16), per-field value length classes {0,1,15,16,31,32,255,256,65535,65536,65537} x content classes (ASCII, NUL, 0xFF, multi-byte, every escape, trailing/only backslashes), role assignments (plain, environment, hidden, rewritten) of two distinguished fields, rewriter chains (copy, unescape, inline->copy, inline->unescape), Unescaped flag both ways, timestamp menu; oracle: well-formed [EventTime, map], map = visible fields of the reference model with nested environment, rewritten fields = reference rewrite, no trailing bytes",
+   note="long-lived serializer with its buffer poisoned before each case; record sizes within the configured limits (overflow of the fixed buffer belongs to C07)"),
+ "C11": dict(cat="exploration", engine="seq", tech=SEQ + " (decode with fluentlib forwardprotocol / gzip+JSON)", ref="DESIGN.md §5 C11",
+   text="real chunk makers: all sequences of up to 5 (quick) / 6 (thorough) record sizes around the scaled chunk limits x every placement of FlushBuffer (2^n) x Forward / PackedForward / CompressedPackedForward and the Datadog format x record and size limits incl. 0 = unlimited x clock frozen / advancing (chunk-ID clock seam) plus a production-limits group; oracle: every chunk decodes, tag, option.chunk = LogChunk.ID = storage name matching MatchChunkID and unique, option.size = entries, concatenation of all chunks = input sequence exactly, a limit is exceeded only by a single record, chunks not mutated after emission",
+   note="fluentdforward limits scaled via an overlay accessor; the chunk-ID clock is controlled through a textual time.Now seam in an overlay copy of chunkidgen.go (skipped and reported if the file changes shape); a clock stepping backwards is outside the stated domain"),
  "C12": dict(cat="exploration", engine="seq", tech=SEQ + " (differential: each record alone on a fresh pipeline vs. after every sequence of other records on a long-lived one)", ref="DESIGN.md §5 C12",
    text="14 record shapes (short, pooled-size, optional fields absent, escaped, multi-line, truncate / mapValue / addFields / redactEmail triggers); all sequences with repetition of length <=3 (quick) / <=4 (thorough) on one long-lived pipeline vs each record alone on a fresh one; outputs fluentd, fluentd+fluentd, fluentd+datadog, datadog; three feeding modes incl. two connections alternating; pooling verified in effect by pointer identity (vacuity guard); oracle: decoded output per record identical in both runs for each output, and identical across identical outputs",
    note="the stage behind the parser sink repeats LogProcessingWorker.onInput rather than running the worker goroutine (the concurrent part is covered by the composed model-checking harness); contamination inside one record is invisible to the differential oracle"),
